@@ -803,14 +803,35 @@ func (c *EvalCtx) evalCall(n ECall, want *Sort) (Val, error) {
 		if x.curLoop == nil {
 			return Val{}, c.errf("visited() outside a loop invariant")
 		}
-		var rng *ssa.Range
-		for _, in := range x.curLoop.head.Instrs {
-			if nx, ok := in.(*ssa.Next); ok {
-				rng, _ = nx.Iter.(*ssa.Range)
+		rangeOf := func(l *loopRec) *ssa.Range {
+			for _, in := range l.head.Instrs {
+				if nx, ok := in.(*ssa.Next); ok && !nx.IsString {
+					if r, ok := nx.Iter.(*ssa.Range); ok {
+						if _, isMap := r.X.Type().Underlying().(*types.Map); isMap {
+							return r
+						}
+					}
+				}
+			}
+			return nil
+		}
+		rng := rangeOf(x.curLoop)
+		if rng == nil && x.cur != nil {
+			// not a map iteration itself: the innermost enclosing map iteration
+			var best *loopRec
+			for _, l := range x.cur.loopInfo {
+				if l != x.curLoop && l.blocks[x.curLoop.head] && rangeOf(l) != nil {
+					if best == nil || len(l.blocks) < len(best.blocks) {
+						best = l
+					}
+				}
+			}
+			if best != nil {
+				rng = rangeOf(best)
 			}
 		}
 		if rng == nil {
-			return Val{}, c.errf("visited(): the loop is not a map iteration")
+			return Val{}, c.errf("visited(): the loop is not (inside) a map iteration")
 		}
 		vn, vs, ok := x.visitedName(rng)
 		if !ok {
